@@ -263,8 +263,17 @@ def r023(prog, chk):
         chk.ob("R02.3", f"{sc.short}|absoluteError = (conversionError or DEFAULT_MAX_ERR) * unitsPerEm", _is_error_formula(prog, sc, v), where(sc, s), detail=T(v, 80),
                message="the absolute conversion error is no longer (conversionError or DEFAULT_MAX_ERR) x unitsPerEm")
     init = ix.get_method(f"{PRE}.TTFInterpolatablePreProcessor", "__init__", own=True)
-    st = [(s, v) for s, t, v in attr_stores(init, "_conversionErrors")]
-    need(st, "TTFInterpolatablePreProcessor.__init__ does not set _conversionErrors")
+    # anchored on the consumer: the max_err handed to fonts_to_quadratic for the list of masters
+    proc = ix.get_method(f"{PRE}.TTFInterpolatablePreProcessor", "process", own=True)
+    f2q = [c for c in A.body_nodes(proc.node) if isinstance(c, ast.Call) and A.callee_name(c) == "fonts_to_quadratic"]
+    need(len(f2q) == 1, "cannot interpret TTFInterpolatablePreProcessor.process: fonts_to_quadratic call")
+    me = A.kwarg(f2q[0], "max_err")
+    need(me is not None, "cannot interpret TTFInterpolatablePreProcessor.process: max_err")
+    if isinstance(me, ast.Attribute) and T(me.value) == "self":
+        st = [(s, v) for s, t, v in attr_stores(init, me.attr)]
+        need(st, f"TTFInterpolatablePreProcessor.__init__ does not set self.{me.attr}")
+    else:
+        st = [(f2q[0], me)]
     for s, v in st:
         ok = isinstance(v, ast.ListComp) and _is_error_formula(prog, init, v.elt) and T(v.generators[0].iter) in ("self.ufos", "ufos")
         if ok:
@@ -596,6 +605,9 @@ def r0210(prog, chk):
 
 
 MUTANTS = [
+    M("one tolerance for all masters from the first master's UPM (seeded C02b)", "ufo2ft/preProcessor.py", "TTFInterpolatablePreProcessor.__init__",
+      "self._conversionErrors = [(conversionError or DEFAULT_MAX_ERR) * getAttrWithFallback(ufo.info, 'unitsPerEm') for ufo in self.ufos]",
+      "self._conversionErrors = (conversionError or DEFAULT_MAX_ERR) * getAttrWithFallback(self.ufos[0].info, 'unitsPerEm')", rule="R02.3"),
     M("composition moved into a helper with a wrong only-shifted fast path (seeded C02a)", "ufo2ft/filters/flattenComponents.py", "_flattenComponent",
       "flat_tr = Transform(*component.transformation)\nflat_tr = flat_tr.translate(tr.dx, tr.dy)\nflat_tr = flat_tr.transform((tr.xx, tr.xy, tr.yx, tr.yy, 0, 0))",
       "flat_tr = _shiftOnly(Transform(*component.transformation), tr)", rule="R02.10"),
